@@ -204,6 +204,19 @@ var account = &core.Check{Name: "c17/account", Quick: 20000, Thorough: 2000000, 
 	if !bytes.Equal(tl, wantTL) {
 		return fmt.Errorf("MarshalTL = %x, want %x", tl, wantTL)
 	}
+	// the returned bytes belong to the caller: marshalling other accounts afterwards does not change them
+	for k := 0; k < 3; k++ {
+		other := id
+		other.Workchain ^= int32(1 + k)
+		other.Address[k] ^= 0xff
+		other.Address[31-k] ^= 0x55
+		if _, err := other.MarshalTL(); err != nil {
+			return fmt.Errorf("MarshalTL: %v", err)
+		}
+	}
+	if !bytes.Equal(tl, wantTL) {
+		return fmt.Errorf("the bytes returned by MarshalTL changed to %x after other accounts were marshalled, want %x", tl, wantTL)
+	}
 	var viaTL ton.AccountID
 	tail := c.Content("tl.tail", c.Range("tl.tailLen", 0, 8)) // bytes that follow in a TL stream are not consumed
 	rd := bytes.NewReader(append(append([]byte{}, tl...), tail...))
